@@ -120,9 +120,12 @@ def body_addsub(h):
         h.require('overflow-justified', s_and(el == 255, ml == maxm, s_iff(tau_pos, s_not(nl))))
         return obs
     # in half-ulps of L:  Delta = R - L,  u = 2^(er - el)
-    de = er - el
-    h.require('result-exponent-near-larger', s_and(s_not(zr), de >= -1, de <= 1))
-    dd = ite(de < -1, 0, ite(de > 1, 2, de + 1))
+    if zr:
+        h.require('result-exponent-near-larger', False)
+        return obs
+    de = h.concretize(er - el, 600)          # usually one value per path: keeps the shifts concrete
+    h.require('result-exponent-near-larger', -1 <= de <= 1)
+    dd = 0 if de < -1 else (2 if de > 1 else de + 1)
     R2 = ite(nr, -(mr << dd), mr << dd)
     L2 = ite(nl, -(ml << 1), ml << 1)
     delta = R2 - L2
